@@ -39,6 +39,7 @@ typedef struct {
     /* incarnations (create / revive) that ended although nobody asked to cancel them and the function had not been
      * entered exactly once; ent0 = entries when the current incarnation began */
     volatile int lost, ent0;
+    volatile int badstate; /* times the unit, while executing its function, read a state other than RUNNING for itself */
     void *arg_given;
 } unit_t;
 static unit_t g_u[MAXU];
@@ -85,6 +86,15 @@ static void mig_cb(ABT_thread thread, void *arg)
 }
 
 static void run_ops(unit_t *me);
+/* a work unit that is executing observes itself RUNNING (ABT_thread_get_state on its own handle) */
+static void self_state_check(unit_t *u)
+{
+    ABT_thread self = ABT_THREAD_NULL;
+    ABT_thread_state st = ABT_THREAD_STATE_RUNNING;
+    if (ABT_self_get_thread(&self) == ABT_SUCCESS && self != ABT_THREAD_NULL &&
+        ABT_thread_get_state(self, &st) == ABT_SUCCESS && st != ABT_THREAD_STATE_RUNNING)
+        u->badstate++;
+}
 static void unit_fn(void *arg)
 {
     unit_t *u = (unit_t *)arg;
@@ -96,7 +106,9 @@ static void unit_fn(void *arg)
      * stream at once must not use its own (or a sibling's) handle before that */
     while (u->named == 'N' && !u->created)
         ABT_thread_yield();
+    self_state_check(u);
     run_ops(u);
+    self_state_check(u);
     vh_note(UEV_FINISH, u->idx, 0, 0);
     u->finished++;
 }
@@ -563,11 +575,12 @@ static void dump_history(const char *status)
     vh_dump(f, status);
     int i;
     for (i = 0; i < g_nu; i++)
-        fprintf(f, "UNITSTAT %d kind=%c named=%c pool=%d created=%d entries=%d finished=%d badarg=%d revives=%d lost=%d\n", i,
+        fprintf(f, "UNITSTAT %d kind=%c named=%c pool=%d created=%d entries=%d finished=%d badarg=%d revives=%d lost=%d badstate=%d\n", i,
                 g_u[i].kind, g_u[i].named, g_u[i].pool, g_u[i].created, g_u[i].entries, g_u[i].finished, g_u[i].badarg,
                 g_u[i].revives,
                 g_u[i].lost + (!strcmp(status, "DONE") && g_u[i].created && !g_u[i].cancelled &&
-                               g_u[i].entries - g_u[i].ent0 != 1));
+                               g_u[i].entries - g_u[i].ent0 != 1),
+                g_u[i].badstate);
     fclose(f);
 }
 
